@@ -76,7 +76,7 @@ def handle (op : String) (args : List String) (impl : String) : Option Verdict :
     -- the batch the contract receives (and hashes) is the batch that was hashed for signing, in order; signature unchanged
     let m := ps ++ "|" ++ sg
     return ⟨m, impl == m, s!"evmcall:n={min pl.length 3}"⟩
-  | "watchsig", [kind, n, script, gas] => some <| Id.run do
+  | "watchsig", [kind, n, script, gas, _after] => some <| Id.run do
     let some n := n.toNat? | return bad
     let sweeps := items script "/"
     let members := joinOr ((List.range n).map toString) ","
@@ -97,13 +97,17 @@ def handle (op : String) (args : List String) (impl : String) : Option Verdict :
   | "execwatch", [kind, cap, tg, gases] => some <| Id.run do
     let some cap := cap.toNat? | return bad
     let some tg := tg.toNat? | return bad
-    let some gs := (items gases ",").mapM (fun g => if g = "n" then some none else g.toNat?.map some) | return bad
-    let ps : List Sygma.C14.PIn := gs.map fun g => ⟨g, false⟩
+    let some gs := (items gases ",").mapM (fun g =>
+      let ex := g.endsWith "e"
+      let g := if ex then (g.dropEnd 1).toString else g
+      if g = "n" then some (none, ex) else g.toNat?.map (fun v => (some v, ex))) | return bad
+    let ps : List Sygma.C14.PIn := gs.map fun g => ⟨g.1, g.2⟩
+    let pendingIdx := (ps.zipIdx.filter fun p => !p.1.executed).map (·.2)
     let hashed : List (List Nat) :=
       if kind = "evm" then ((Sygma.C14.batches cap tg ps).map fun b => b.members.map (·.1)).filter (· ≠ [])
-      else [List.range ps.length]
+      else if pendingIdx.isEmpty then [] else [pendingIdx]
     let hs := (hashed.map fun b => joinOr (b.map toString) ",").mergeSort (fun a b => a ≤ b)
-    let polls := joinOr ((List.range ps.length).map fun i => s!"{i}:1") ","
+    let polls := joinOr (pendingIdx.map fun i => s!"{i}:1") ","
     let m := s!"H={joinOr hs ";"}|polls={polls}|ret=nil"
     -- property on the implementation's output: every hashed batch is watched (and later submitted) as itself — the
     -- members polled by the watchers are exactly the hashed members, each by exactly one watcher
@@ -116,6 +120,29 @@ def handle (op : String) (args : List String) (impl : String) : Option Verdict :
         h.startsWith "H=" && p.startsWith "polls=" && polledOnce && polledMembers == hashedMembers && r == "ret=nil"
       | _ => false
     return ⟨m, ok, s!"execwatch:{kind}:n={min ps.length 4}:batches={min hashed.length 4}"⟩
+  | "execsign", [kind, cap, tg, gases] => some <| Id.run do
+    let some cap := cap.toNat? | return bad
+    let some tg := tg.toNat? | return bad
+    let some gs := (items gases ",").mapM (fun g =>
+      let ex := g.endsWith "e"
+      let g := if ex then (g.dropEnd 1).toString else g
+      if g = "n" then some (none, ex) else g.toNat?.map (fun v => (some v, ex))) | return bad
+    let ps : List Sygma.C14.PIn := gs.map fun g => ⟨g.1, g.2⟩
+    let pendingIdx := (ps.zipIdx.filter fun p => !p.1.executed).map (·.2)
+    let bs := if kind = "evm" then ((Sygma.C14.batches cap tg ps).map fun b => b.members.map (·.1)).filter (· ≠ [])
+      else if pendingIdx.isEmpty then [] else [pendingIdx]
+    let subs := (bs.map fun b => "ok:" ++ joinOr (b.map toString) ",").mergeSort (fun a b => a ≤ b)
+    let m := s!"subs={joinOr subs ";"}|left=-"
+    -- property: every submission carries a signature of the group key over the digest of the batch it is submitted with
+    -- (the destination recomputes and recovers), and every pending proposal gets submitted exactly once
+    let ok := match impl.splitOn "|" with
+      | [sb, lf] =>
+        let recs := items (sb.drop 5).toString ";"
+        let members := (recs.flatMap fun r => items (((r.splitOn ":").getD 1 "-")) ",").mergeSort (fun a b => a ≤ b)
+        sb.startsWith "subs=" && recs.all (·.startsWith "ok:") && lf == "left=-" &&
+          members == (pendingIdx.map toString).mergeSort (fun a b => a ≤ b)
+      | _ => false
+    return ⟨m, ok, s!"execsign:{kind}:n={min ps.length 4}:batches={min bs.length 4}"⟩
   | "bseq", [kind, chain, addr, handler, steps, batches] => some <| Id.run do
     let some c := chain.toNat? | return bad
     let some a := fromHex addr | return bad
